@@ -89,13 +89,13 @@ CONF = {
 def plan(tier: str) -> list[dict]:
     q = tier == "quick"
     return [
-        {"stratum": "crash-client", "runs": 96 if q else 8000, "params": {"victim": "c"}, "chunk": 6 if q else 200},
-        {"stratum": "crash-runner", "runs": 240 if q else 16000, "params": {"victim": "r1"}, "chunk": 15 if q else 400},
-        {"stratum": "crash-ppr-worker", "runs": 96 if q else 8000, "params": {"victim": "w"}, "chunk": 6 if q else 200},
-        {"stratum": "crash-recovery-task", "runs": 64 if q else 6000, "params": {"victim": "recovery"}, "chunk": 4 if q else 150},
-        {"stratum": "fault-free", "runs": 32 if q else 2000, "params": {"victim": None}, "chunk": 4 if q else 100},
-        {"stratum": "fault-free-ppr", "runs": 48 if q else 3000, "params": {"victim": None, "ppr": True}, "chunk": 4 if q else 100},
-        {"stratum": "fault-free-stalled-worker", "runs": 80 if q else 4000, "params": {"victim": None, "stalled": True}, "chunk": 4 if q else 100},
+        {"stratum": "crash-client", "runs": 96 if q else 8000, "params": {"victim": "c"}, "chunk": 6 if q else 100},
+        {"stratum": "crash-runner", "runs": 240 if q else 16000, "params": {"victim": "r1"}, "chunk": 15 if q else 100},
+        {"stratum": "crash-ppr-worker", "runs": 96 if q else 8000, "params": {"victim": "w"}, "chunk": 6 if q else 40},
+        {"stratum": "crash-recovery-task", "runs": 64 if q else 6000, "params": {"victim": "recovery"}, "chunk": 4 if q else 60},
+        {"stratum": "fault-free", "runs": 32 if q else 2000, "params": {"victim": None}, "chunk": 4 if q else 50},
+        {"stratum": "fault-free-ppr", "runs": 48 if q else 3000, "params": {"victim": None, "ppr": True}, "chunk": 4 if q else 40},
+        {"stratum": "fault-free-stalled-worker", "runs": 80 if q else 4000, "params": {"victim": None, "stalled": True}, "chunk": 4 if q else 60},
     ]
 
 
